@@ -112,7 +112,14 @@ class AstProfileTransformer(ast.NodeTransformer):
         if not self._profile_imports:
             return self.generic_visit(node)
         visited = [self.generic_visit(node)]
+        if isinstance(node, ast.ImportFrom) and node.module == '__future__':
+            # Nothing to profile, and no statement may come between the
+            # `from __future__ import ...` lines
+            return visited
         for names in node.names:
+            if names.name == '*':
+                # `from foo import *` binds no name `*` to register
+                continue
             node_name = names.name if names.asname is None else names.asname
             if node_name in self._profiled_imports:
                 continue
